@@ -7,6 +7,7 @@
 From Coq Require Import List Arith Bool Lia Permutation.
 Import ListNotations.
 From Verif.C10 Require Import Model Proofs Proofs2.
+Local Notation idc := (fun s0 : state => s0).
 
 Definition tok_pairs (l : list (prid * pair)) : list pid :=
   flat_map (fun e => if pr_latched (snd e) then [] else [pr_owner (snd e)]) l.
@@ -497,8 +498,8 @@ Lemma LI_comb_dec c s : LI s -> LI (comb_dec T c s). Proof. unfold comb_dec. li.
 Hint Resolve LI_comb_dec : li.
 Lemma LI_elem_fn c i b a s : LI s -> LI (elem_fn T c i b a s). Proof. unfold elem_fn. li. Qed.
 Hint Resolve LI_elem_fn : li.
-Lemma LI_exec_act s a : LI s -> LI (exec_act T s a). Proof. unfold exec_act. li. Qed.
-Lemma LI_exec_acts l s : LI s -> LI (fold_left (exec_act T) l s).
+Lemma LI_exec_act s a : LI s -> LI (exec_act T idc s a). Proof. unfold exec_act. li. Qed.
+Lemma LI_exec_acts l s : LI s -> LI (fold_left (exec_act T idc) l s).
 Proof. apply fold_left_inv. intros; apply LI_exec_act; auto. Qed.
 Hint Resolve LI_exec_acts : li.
 Lemma LI_exec_tsteps r l : forall s, LI s -> LI (exec_tsteps T r l s).
@@ -534,7 +535,7 @@ Hint Resolve LI_async_throw : li.
 Lemma LI_async_step b s : LI s -> LI (async_step T b s).
 Proof. intros H. unfold async_step. destruct (ab_rest b); [li|]. split_pr. li. Qed.
 Hint Resolve LI_async_step : li.
-Lemma LI_exec_finally sc ful arg cap s : LI s -> LI (exec_finally T sc ful arg cap s).
+Lemma LI_exec_finally sc ful arg cap s : LI s -> LI (exec_finally T idc sc ful arg cap s).
 Proof.
   intros H. unfold exec_finally. cbv beta zeta.
   destruct (s_ret sc); try solve [li]; split_pr; split_nc; li.
@@ -625,7 +626,7 @@ Proof.
 Qed.
 
 Lemma LI_exec_job_popped j rest s :
-  LI s -> queue s = j :: rest -> LI (exec_job T j (mark_ran j (set_queue rest s))).
+  LI s -> queue s = j :: rest -> LI (exec_job T idc j (mark_ran j (set_queue rest s))).
 Proof.
   intros H Q. destruct (LI_pop j rest s H Q) as [H1 TH].
   set (s0 := mark_ran j (set_queue rest s)).
